@@ -19,8 +19,10 @@ CASES_PER_FILE = 120
 CASE_FILE_BYTES = 140000
 TIERS = {"quick": {"n": 1500}, "thorough": {"n": 24000, "exhaustive": True}}
 RULE = ("three families of histories. oto: up to 3 OneToOne instances built from pairs (dict/pairs/generator/iterator/"
-        "kwargs/non-dict mapping, .unique), copied (.copy(), OneToOne(x), copy.copy), mutated through either side by "
-        "[]=, del, pop, popitem, clear, setdefault, update, |=, update-from-another-instance; every instance's "
+        "kwargs/non-dict mapping, .unique, .fromkeys), copied (.copy(), OneToOne(x), copy.copy), mutated through either side by "
+        "[]=, del, pop, popitem, clear, setdefault, update, |=, update-from-another-instance, in 30 % of the histories also "
+        "with unhashable operands (TypeError, nothing written); tokens rendered as equal-but-not-identical objects in "
+        "rotation; every instance's "
         "list(items()), list(inv.items()) and inv.inv identity observed after EVERY step. m2m: same for ManyToMany "
         "(add/remove/[]=/del/replace/update/update(other)/ManyToMany(other)/==) with canonical sorted views read "
         "alternately through keys()+[] and keys()+iteritems(). fd: a FrozenDict, every mutator, hash (repeated), "
@@ -417,7 +419,10 @@ def grid():
             for v in T:
                 oto_ops += [["op", 0, s, "set", k, v], ["op", 0, s, "setdefault", k, v],
                             ["op", 0, s, "update", [[k, v]], "iter"], ["op", 0, s, "ior", [[k, v]], "dict"]]
-        oto_ops += [["op", 0, s, "popitem"], ["op", 0, s, "clear"]]
+        oto_ops += [["op", 0, s, "popitem"], ["op", 0, s, "clear"],
+                    # unhashable operands: refused before anything is written, update all-or-nothing
+                    ["op", 0, s, "set", 0, 900], ["op", 0, s, "setdefault", 4, 900],
+                    ["op", 0, s, "update", [[4, 0], [0, 900]], "pairs"]]
     for init in ([], [[0, 0]], [[0, 4]], [[0, 4], [4, 0]]):
         first = ["new", False, "pairs", init]
         for a in oto_ops:
@@ -433,6 +438,7 @@ def grid():
                           ["op", 0, s, "update", [[k, v]], "gen"]]
             for vals in ([], [0], [4], [0, 4]):
                 m_ops += [["op", 0, s, "setitem", k, vals, "set"]]
+    m_ops += [["eq", 0, 0, 0, 1]]
     for init in ([], [[0, 4]], [[0, 0], [0, 4]], [[0, 4], [4, 4]]):
         first = ["new", "pairs", init]
         for a in m_ops:
